@@ -13,7 +13,7 @@ def _bytes(out):
     return {f: open(os.path.join(out, f), "rb").read() for f in FILES}
 
 
-OPS = ["load", "load+promote", "promote", "demote", "update", "mark_canceled", "complete_id", "reload_jobs"]
+OPS = ["load", "load+promote", "promote", "demote", "update", "mark_canceled", "complete_id", "reload_jobs", "mark_complete"]
 
 
 def h_cluster(handles=3, steps=5, hosts=("login1", "node7")):
@@ -72,6 +72,10 @@ def h_cluster(handles=3, steps=5, hosts=("login1", "node7")):
                     h["c"].complete_hpc_job_id("77")
                 elif op == "reload_jobs":
                     h["c"].deserialize_jobs()
+                elif op == "mark_complete":
+                    if h["c"].config.is_complete or not h["role"]:
+                        continue  # only the submitter of the last round completes a submission, once (HpcSubmitter.run)
+                    h["c"].mark_complete()
             except (ConfigVersionMismatch, JobStatusVersionMismatch) as e:
                 err = e
             except filelock.Timeout as e:
